@@ -155,10 +155,33 @@ func runConc(c *ConcCase) (*concResult, error) {
 		raw api.Module
 	}
 	recs := make([]rec, total+len(tail))
+	// rendezvous points: operations with the same Sync number wait (bounded spin) for each
+	// other right before their invocation, which makes narrow overlaps likely.
+	expect := map[int]int32{}
+	maxSync := 0
+	for _, th := range c.Threads {
+		for _, o := range th {
+			if o.Sync > 0 {
+				expect[o.Sync]++
+				if o.Sync > maxSync {
+					maxSync = o.Sync
+				}
+			}
+		}
+	}
+	arrived := make([]atomic.Int32, maxSync+1)
 	do := func(idx, thread int, o Op) {
 		r := &recs[idx]
 		r.h = HOp{I: idx, T: thread, Op: o, Target: -1}
 		delay(o.Y)
+		if o.Sync > 0 && thread >= 0 {
+			arrived[o.Sync].Add(1)
+			for spin := 0; arrived[o.Sync].Load() < expect[o.Sync] && spin < 60000; spin++ {
+				if spin%2000 == 1999 {
+					runtime.Gosched()
+				}
+			}
+		}
 		r.h.Call = clock.Add(1)
 		r.h.Res = e.exec(idx, o, &r.raw)
 		r.h.Ret = clock.Add(1)
@@ -955,6 +978,111 @@ func genConc(t *rapid.T) *ConcCase {
 		}
 		c.Threads = append(c.Threads, th)
 	}
+	// collision groups: 2..4 goroutines get one conflicting operation each, joined by a
+	// rendezvous point. Only when no exclusion of a known finding restricts the program.
+	if !exclDupTaint && !exclHostAfterClose && strings.TrimSpace(os.Getenv("VERIF_C10_EXCLUDE")) == "" {
+		isRC := func(o Op) bool { return o.K == kRtClose || o.K == kRtCloseC }
+		var setupInst []int
+		for i, o := range c.Setup {
+			if o.K == kInst || o.K == kHostInst {
+				setupInst = append(setupInst, i)
+			}
+		}
+		taken := map[[2]int]bool{}
+		ng := rapid.SampledFrom([]int{0, 1, 1, 1, 2}).Draw(t, "collision-groups")
+		for g := 1; g <= ng; g++ {
+			typ := rapid.SampledFrom([]string{"closes", "closes", "insts", "close-vs-inst", "rc-vs", "rc-vs"}).Draw(t, "collision-type")
+			if (typ == "closes" || typ == "close-vs-inst") && len(setupInst) == 0 {
+				typ = "insts"
+			}
+			if typ == "rc-vs" && !hasRC {
+				typ = "insts"
+			}
+			k := rapid.IntRange(2, min(4, nt)).Draw(t, "collision-size")
+			members := rapid.SliceOfNDistinct(rapid.IntRange(0, nt-1), k, k, rapid.ID[int]).Draw(t, "collision-threads")
+			target, name := -1, rapid.SampledFrom([]string{"a", "a", "b"}).Draw(t, "collision-name")
+			if len(setupInst) > 0 {
+				target = rapid.SampledFrom(setupInst).Draw(t, "collision-target")
+				if typ == "close-vs-inst" {
+					if n := c.Setup[target].effName(); n != "" {
+						name = n
+					}
+				}
+			}
+			mkInst := func() Op {
+				return Op{K: kInst, Bin: rapid.IntRange(0, 1).Draw(t, "bin"), Set: true, Name: name,
+					FromBin: rapid.IntRange(0, 5).Draw(t, "frombin") == 0, ND: rapid.SampledFrom([]int{0, 0, 1, 5}).Draw(t, "notifier-delay")}
+			}
+			mkClose := func() Op {
+				if rapid.Bool().Draw(t, "with-code") {
+					return Op{K: kCloseC, H: target, Code: uint32(rapid.IntRange(1, 9).Draw(t, "code"))}
+				}
+				return Op{K: kClose, H: target}
+			}
+			if typ == "rc-vs" {
+				// the goroutine that closes the runtime is the first member
+				has := false
+				for _, m := range members {
+					has = has || m == rcThread
+				}
+				if !has {
+					members[0] = rcThread
+				}
+			}
+			for mi, ti := range members {
+				var pos int
+				var o Op
+				if typ == "rc-vs" && ti == rcThread {
+					pos = -1
+					for j, x := range c.Threads[ti] {
+						if isRC(x) && pos < 0 {
+							pos = j
+						}
+					}
+					if pos < 0 || taken[[2]int{ti, pos}] {
+						continue
+					}
+					o = c.Threads[ti][pos]
+				} else {
+					pos = rapid.IntRange(0, lens[ti]-1).Draw(t, "collision-pos")
+					if isRC(c.Threads[ti][pos]) || taken[[2]int{ti, pos}] {
+						continue
+					}
+					switch typ {
+					case "closes":
+						o = mkClose()
+					case "insts":
+						o = mkInst()
+					case "close-vs-inst":
+						switch {
+						case mi == 0:
+							o = mkClose()
+						case mi == 2:
+							o = Op{K: kLookup, Name: name}
+						default:
+							o = mkInst()
+						}
+					case "rc-vs":
+						switch v := rapid.IntRange(0, 5).Draw(t, "versus"); {
+						case v == 0 && target >= 0:
+							o = mkClose()
+						case v == 1:
+							o = Op{K: kCompile, Var: rapid.IntRange(1, 12).Draw(t, "variant")}
+						case v == 2:
+							o = Op{K: kHostInst, Name: name}
+						case v == 3:
+							o = Op{K: kLookup, Name: name}
+						default:
+							o = mkInst()
+						}
+					}
+				}
+				o.Sync, o.Y = g, 0
+				taken[[2]int{ti, pos}] = true
+				c.Threads[ti][pos] = o
+			}
+		}
+	}
 	return c
 }
 
@@ -1243,7 +1371,7 @@ func probeCompileDuringClose(iter int) (panics int, detail string) {
 var probeText = map[string]string{
 	"notifier":   "{InstantiateModule of a pre-compiled module with a CloseNotifier || Runtime.Close}, 300 runs",
 	"codecloser": "{InstantiateWithConfig(bytes) without notifier || Runtime.Close}, 300 runs",
-	"compile":  "{CompileModule of fresh binaries / HostModuleBuilder.Compile || Runtime.Close}, 300 runs",
+	"compile":    "{CompileModule of fresh binaries / HostModuleBuilder.Compile || Runtime.Close}, 300 runs",
 }
 
 // TestProbeChild is what the child process of TestRaceFindings runs.
